@@ -1,5 +1,6 @@
 import VelaVerif.Lemmas.TfliteWriter
 import VelaVerif.Model.TfliteReader
+import VelaVerif.Spec.TfliteFile
 /-! Lemmas about the TFLite reader model and the reader / writer tables. -/
 set_option linter.unusedSimpArgs false
 namespace VelaVerif.Tflite.Writer
@@ -195,3 +196,183 @@ theorem prepSub_ok (ts : List TensorD) (sg : SubgraphD) (ps : PSub) (h : prepSub
   obtain ⟨l, f⟩ := mapM_ok _ _ _ h1
   exact ⟨rfl, l, f⟩
 end VelaVerif.Tflite.Writer
+
+namespace VelaVerif.Tflite.Reader
+open VelaVerif.Tflite VelaVerif.Tflite.Writer VelaVerif.OpIndices VelaVerif.Gen
+
+/-- the representable range of a tensor is there exactly when the tensor is quantised and of an integer element type, and is then
+the full range of that type -/
+def RangeOk (td : TensorD) : Prop :=
+  td.range = if td.quant.isSome then (Spec.intType td.dtype).map (fun sb => Spec.fullRange sb.1 sb.2) else none
+
+theorem cloneReshape_range (ts : List TensorD) (src : Nat) (r : Option (List Nat)) (c : TensorD)
+    (hts : ∀ x ∈ ts, RangeOk x) (h : cloneReshape ts src r = .ok c) : RangeOk c := by
+  unfold cloneReshape at h
+  cases ht : ts[src]? with
+  | none => simp [ht, bind, Except.bind, throw, throwThe, MonadExceptOf.throw] at h
+  | some t =>
+    have hr := hts t (List.mem_of_getElem? ht)
+    simp only [ht, bind, Except.bind, pure, Except.pure] at h
+    cases r with
+    | none =>
+      simp only [Except.ok.injEq] at h
+      subst h; exact hr
+    | some r =>
+      simp only at h
+      split at h
+      · simp at h
+      · split at h
+        · simp at h
+        · split at h
+          · simp [throw, throwThe, MonadExceptOf.throw] at h
+          · simp only [Except.ok.injEq] at h
+            subst h; exact hr
+
+theorem biasClone_range (ts : List TensorD) (ins : List (Option Nat)) (r : List TensorD × List (Option Nat))
+    (hts : ∀ x ∈ ts, RangeOk x) (h : biasClone ts ins = .ok r) : ∀ x ∈ r.1, RangeOk x := by
+  unfold biasClone at h
+  split at h
+  · split at h
+    · simp [throw, throwThe, MonadExceptOf.throw] at h
+    · split at h
+      · obtain ⟨cb, hcb, h⟩ := bind_ok h
+        simp only [pure, Except.pure, Except.ok.injEq] at h
+        subst h
+        intro x hx
+        rcases List.mem_append.mp hx with hx | hx
+        · exact hts x hx
+        · simp at hx; subst hx; exact cloneReshape_range _ _ _ _ hts hcb
+      · simp only [pure, Except.pure, Except.ok.injEq] at h
+        subst h; exact hts
+  · simp only [pure, Except.pure, Except.ok.injEq] at h
+    subst h; exact hts
+
+theorem cloneStep_range (op : OpInfo) (ts : List TensorD) (ins : List (Option Nat)) (r : List TensorD × List (Option Nat))
+    (hts : ∀ x ∈ ts, RangeOk x) (h : cloneStep op ts ins = .ok r) : ∀ x ∈ r.1, RangeOk x := by
+  unfold cloneStep at h
+  split at h
+  · split at h
+    · simp [throw, throwThe, MonadExceptOf.throw] at h
+    · simp [throw, throwThe, MonadExceptOf.throw] at h
+    · split at h
+      · simp [throw, throwThe, MonadExceptOf.throw] at h
+      · split at h
+        · obtain ⟨c, hc, h⟩ := bind_ok h
+          refine biasClone_range _ _ _ ?_ h
+          intro x hx
+          rcases List.mem_append.mp hx with hx | hx
+          · exact hts x hx
+          · simp at hx; subst hx; exact cloneReshape_range _ _ _ _ hts hc
+        · simp only [pure, Except.pure, Except.ok.injEq] at h
+          subst h; exact hts
+  · simp only [pure, Except.pure, Except.ok.injEq] at h
+    subst h; exact hts
+
+theorem virtualStep_range (code : RCode) (k : Nat) (ts : List TensorD) (outs : List (Option Nat))
+    (hts : ∀ x ∈ ts, RangeOk x) : ∀ x ∈ (virtualStep code k ts outs).1, RangeOk x := by
+  unfold virtualStep
+  split
+  · intro x hx
+    rcases List.mem_append.mp hx with hx | hx
+    · exact hts x hx
+    · simp at hx; subst hx; simp [RangeOk, virtualTensor]
+  · exact hts
+
+theorem parseOperator_range (codes : List RCode) (base n : Nat) (ts : List TensorD) (k : Nat) (o : OperatorT)
+    (r : ROp × List TensorD × Option Nat) (hts : ∀ x ∈ ts, RangeOk x) (h : parseOperator codes base n ts k o = .ok r) :
+    ∀ x ∈ r.2.1, RangeOk x := by
+  unfold parseOperator at h
+  obtain ⟨code, _, h⟩ := bind_ok h
+  obtain ⟨ins, _, h⟩ := bind_ok h
+  obtain ⟨outs, _, h⟩ := bind_ok h
+  obtain ⟨inter, _, h⟩ := bind_ok h
+  obtain ⟨fo, _, h⟩ := bind_ok h
+  obtain ⟨ins1, _, h⟩ := bind_ok h
+  obtain ⟨c, hc, h⟩ := bind_ok h
+  simp only [pure, Except.pure, Except.ok.injEq] at h
+  subst h
+  exact cloneStep_range _ _ _ _ (virtualStep_range code k ts outs hts) hc
+
+theorem parseOperators_range (codes : List RCode) (base n : Nat) : ∀ (ops : List OperatorT) (k : Nat) (ts : List TensorD)
+    (r : List ROp × List TensorD × List Nat), (∀ x ∈ ts, RangeOk x) → parseOperators codes base n ops k ts = .ok r → ∀ x ∈ r.2.1, RangeOk x
+  | [], k, ts, r, hts, h => by
+    simp [parseOperators, pure, Except.pure] at h
+    subst h; exact hts
+  | o :: rest, k, ts, r, hts, h => by
+    unfold parseOperators at h
+    obtain ⟨r1, h1, h⟩ := bind_ok h
+    obtain ⟨rs, h2, h⟩ := bind_ok h
+    simp only [pure, Except.pure, Except.ok.injEq] at h
+    subst h
+    exact parseOperators_range codes base n rest (k + 1) r1.2.1 rs (parseOperator_range _ _ _ _ _ _ _ hts h1) h2
+
+theorem ranges_table :
+    WriterTbl.dtypeMap.all (fun row => rangeOf row.2.1 row.2.2.1 == (Spec.intType row.2.1).map (fun sb => Spec.fullRange sb.1 sb.2)) = true := by
+  decide +kernel
+
+theorem parseTensor_range (bufs : List (Option Data)) (t : TensorT) (td : TensorD) (h : parseTensor bufs t = .ok td) : RangeOk td := by
+  unfold parseTensor at h
+  obtain ⟨row, hrow, h⟩ := bind_ok h
+  obtain ⟨buf, hbuf, h⟩ := bind_ok h
+  obtain ⟨_, _, h⟩ := bind_ok h
+  simp only [pure, Except.pure, Except.ok.injEq] at h
+  subst h
+  unfold RangeOk
+  dsimp only
+  have hmem : row ∈ WriterTbl.dtypeMap := by
+    unfold dtypeRow at hrow
+    cases hf : WriterTbl.dtypeMap.find? (·.1 == t.type) with
+    | none => simp [hf, throw, throwThe, MonadExceptOf.throw] at hrow
+    | some r =>
+      simp [hf, pure, Except.pure] at hrow
+      subst hrow
+      exact List.mem_of_find?_eq_some hf
+  have := List.all_eq_true.mp ranges_table row hmem
+  simp only [beq_iff_eq] at this
+  rw [this]
+
+theorem readSubgraph_range (codes : List RCode) (bufs : List (Option Data)) (ts : List TensorD) (sg : SubGraphT)
+    (r : SubgraphD × List TensorD) (hts : ∀ x ∈ ts, RangeOk x) (h : readSubgraph codes bufs ts sg = .ok r) : ∀ x ∈ r.2, RangeOk x := by
+  unfold readSubgraph at h
+  obtain ⟨own, hown, h⟩ := bind_ok h
+  obtain ⟨po, hpo, h⟩ := bind_ok h
+  obtain ⟨_, _, h⟩ := bind_ok h
+  obtain ⟨_, _, h⟩ := bind_ok h
+  obtain ⟨_, _, h⟩ := bind_ok h
+  obtain ⟨_, _, h⟩ := bind_ok h
+  simp only [pure, Except.pure, Except.ok.injEq] at h
+  subst h
+  refine parseOperators_range _ _ _ _ _ _ _ ?_ hpo
+  intro x hx
+  rcases List.mem_append.mp hx with hx | hx
+  · exact hts x hx
+  · obtain ⟨j, hj⟩ := List.getElem?_of_mem hx
+    obtain ⟨l, f⟩ := mapM_ok _ _ _ hown
+    have hjl : j < sg.tensors.length := by rw [← l]; exact (List.getElem?_eq_some_iff.mp hj).1
+    obtain ⟨b, hb1, hb2⟩ := f j _ (List.getElem?_eq_getElem hjl)
+    rw [hj] at hb1
+    rw [Option.some.inj hb1]
+    exact parseTensor_range _ _ _ hb2
+
+theorem readSubgraphs_range (codes : List RCode) (bufs : List (Option Data)) : ∀ (sgs : List SubGraphT) (ts : List TensorD)
+    (r : List SubgraphD × List TensorD), (∀ x ∈ ts, RangeOk x) → readSubgraphs codes bufs sgs ts = .ok r → ∀ x ∈ r.2, RangeOk x
+  | [], ts, r, hts, h => by
+    simp [readSubgraphs, pure, Except.pure] at h
+    subst h; exact hts
+  | sg :: rest, ts, r, hts, h => by
+    unfold readSubgraphs at h
+    obtain ⟨r1, h1, h⟩ := bind_ok h
+    obtain ⟨rs, h2, h⟩ := bind_ok h
+    simp only [pure, Except.pure, Except.ok.injEq] at h
+    subst h
+    exact readSubgraphs_range codes bufs rest r1.2 rs (readSubgraph_range _ _ _ _ _ hts h1) h2
+
+theorem read_range (version : Bytes) (t : ModelT) (d : Desc) (h : read version t = .ok d) : ∀ x ∈ d.tensors, RangeOk x := by
+  unfold read at h
+  obtain ⟨codes, _, h⟩ := bind_ok h
+  obtain ⟨r, hr, h⟩ := bind_ok h
+  obtain ⟨metas, _, h⟩ := bind_ok h
+  simp only [pure, Except.pure, Except.ok.injEq] at h
+  subst h
+  exact readSubgraphs_range _ _ _ _ _ (by intro x hx; simp at hx) hr
+end VelaVerif.Tflite.Reader
